@@ -339,17 +339,32 @@ def s_check():
                                               st.sampled_from([0, 0, 0, 1, 2])), ok_outs)
 
         # 5. sizes 999 999 / 1 000 000 / 1 000 001 through one padded script, measured stripped or in total, with / without witness
-        def sized(ins, outs_, where, pos, size, of, seed, wit, coinbase):
+        def sized(ins, outs_, where, pos, size, of, seed, wit, coinbase, shape):
             ins = [dict(i, witness=[]) for i in ins]
             if coinbase:
                 ins = [{"prev": "00" * 32, "index": NULL_INDEX, "script": "0102", "sequence": 0, "witness": []}]
                 where = "out"
             if wit:
                 ins[0]["witness"] = ["aa" * wit]
-            return base(ins, outs_, pad={"where": where, "pos": pos, "size": size, "of": of, "seed": seed})
+            extra = {}
+            if shape is not None:
+                # the rest of the transaction carries fields sitting on compact-size boundaries (a length or a count of
+                # exactly 252 / 253 / 254 / 255 / 256 / 65535 / 65536), so that a size computed otherwise than by
+                # serialising has every prefix width to get right
+                kind, b = shape
+                if kind == "script":
+                    outs_ = list(outs_) + [{"value": 1, "script": [b, seed]}, {"value": 2, "script": [b, seed + 1]}]
+                elif kind == "outs" and b < 1000:
+                    extra["xouts"] = max(0, b - len(outs_))
+                elif kind == "ins" and b < 1000 and not coinbase:
+                    extra["xins"] = max(0, b - len(ins))
+            return base(ins, outs_, pad={"where": where, "pos": pos, "size": size, "of": of, "seed": seed}, **extra)
         c_size = st.builds(sized, ins_ok, ok_outs, st.sampled_from(["in", "out"]), st.integers(0, 3),
-                           st.sampled_from([MAX_SIZE - 1, MAX_SIZE, MAX_SIZE + 1]), st.sampled_from(["stripped", "total"]),
-                           st.integers(0, 250), st.sampled_from([0, 0, 1, 33]), st.sampled_from([False, False, False, True]))
+                           st.sampled_from([MAX_SIZE - 1, MAX_SIZE, MAX_SIZE + 1, MAX_SIZE + 1, MAX_SIZE + 2, MAX_SIZE + 3, MAX_SIZE + 4, MAX_SIZE + 8]),
+                           st.sampled_from(["stripped", "total"]),
+                           st.integers(0, 250), st.sampled_from([0, 0, 1, 33]), st.sampled_from([False, False, False, True]),
+                           st.one_of(st.none(), st.tuples(st.sampled_from(["script", "script", "outs", "ins"]),
+                                                          st.sampled_from([252, 253, 253, 254, 255, 256, 65535, 65536]))))
         # 6. anything goes (small): arbitrary mixtures
         c_free = st.builds(base, st.lists(st.one_of(_normal_in(), txgen.txins(big=0)), max_size=4), st.one_of(outs, ok_outs, st.just([])),
                            txgen.u32s(), txgen.u32s())
